@@ -236,6 +236,7 @@ REVISIONS = [
     ('C06', 'text', "and every new_constant()/new_world() request made during random first-order / modal proofs checked at call time.",
      "and random first-order / modal proofs are stepped: every new_constant()/new_world() request is checked at call time, and every witness step (quantifier / modal / "
      "Serial) is compared with a snapshot of the branch taken before it, whether or not the rule asked the branch for its witness."),
+    ('C08', 'note', "Models have <= 3 worlds and constants;", "Models have up to 5 worlds (access chains: 8) and up to 6 constants;"),
     ('C01', 'text', "Arguments are generated together with a reference countermodel,", "Arguments are generated together with a reference countermodel (a third of them rule-first: "
      "several instances of one drawn top-level form),"),
 ]
